@@ -49,7 +49,7 @@ func init() {
 					}
 				}
 			}
-			return append(u, "fixtures")
+			return append(u, "fixtures", "large")
 		},
 		Run: c07Run,
 		Bound: func(tier string) map[string]any {
@@ -333,6 +333,42 @@ func c07Run(c *hx.Ctx, tier, unit string) {
 		c07Fixtures(c)
 		return
 	}
+	if unit == "large" {
+		// "any certificate size and count": single entries just above every power of two and power of
+		// ten up to 32 MiB (thorough: 64 MiB), decoded, re-encoded, and built through Append
+		for _, n := range c07LargeSizes(tier) {
+			if !c.Next() {
+				continue
+			}
+			c.Tick()
+			ls := []refesl.List{refesl.Mk(refesl.SHA256, 48, refesl.Entry{Owner: ownerA, Data: fill(32, 3)}), refesl.Mk(refesl.X509, uint32(16+n), refesl.Entry{Owner: ownerB, Data: fill(n, 0x29)})}
+			s := refesl.Encode(ls)
+			c.Sample(map[string]any{"entry_bytes": n, "stream_bytes": len(s)})
+			c07CheckStream(c, s, ls, fmt.Sprintf("SHA256 list + X.509 list with one %d-byte entry", n))
+			if !c.Next() {
+				continue
+			}
+			db := signature.NewSignatureDatabase()
+			var err error
+			if p := hx.Try(func() { err = db.Append(signature.CERT_X509_GUID, unwire(ownerB), fill(n, 0x29)) }); p != nil || err != nil {
+				c.Violation("C07 a database built through library operations: Append of a large X.509 entry fails", map[string]any{"entry_bytes": n, "error": fmt.Sprint(err, p)})
+				continue
+			}
+			enc := db.Bytes()
+			back, _, rerr := refesl.Decode(enc)
+			var db2 signature.SignatureDatabase
+			var derr error
+			hx.Try(func() { db2, derr = signature.ReadSignatureDatabase(bytes.NewReader(enc)) })
+			if rerr != nil || len(back) != 1 || derr != nil || !bytes.Equal(db2.Bytes(), enc) {
+				c.Outcome("violation")
+				c.Violation("C07 a database built through library operations does not decode to an equal database (large entry)", map[string]any{"entry_bytes": n, "reference_error": fmt.Sprint(rerr), "library_error": fmt.Sprint(derr)})
+				continue
+			}
+			c.Outcome("large-built-ok")
+			c.Nontrivial([]byte(fmt.Sprint("built", n)))
+		}
+		return
+	}
 	if strings.HasPrefix(unit, "converse#") {
 		pp := strings.Split(unit, "#")
 		first, _ := strconv.Atoi(pp[1])
@@ -363,6 +399,18 @@ func c07Run(c *hx.Ctx, tier, unit string) {
 		c07CheckStream(c, s, back, describeLists(ls))
 		return !c.Expired()
 	})
+}
+
+func c07LargeSizes(tier string) []int {
+	var out []int
+	top := 25
+	if tier == "thorough" {
+		top = 26
+	}
+	for k := 12; k <= top; k++ {
+		out = append(out, 1<<k+1)
+	}
+	return append(out, 100001, 1000001, 10000001)
 }
 
 // c07Fixtures round-trips the captured variables shipped with the repository.
